@@ -442,6 +442,9 @@ def _hyp():
                     st.one_of(st.floats(-180, 180, allow_nan=False), st.sampled_from([0.0, -122.082932, 1e-9, 180.0, 1e16])))
     dts = st.builds(lambda y, mo, d, h, mi, s, u: {"t": "datetime", "v": [y, mo, d, h, mi, s], "utc": u},
                     st.integers(1, 9999), st.integers(1, 12), st.integers(1, 28), st.integers(0, 23), st.integers(0, 59), st.integers(0, 59), st.booleans())
+    # the first and the last day of the representable range, in UTC and floating
+    dts = st.one_of(dts, dts, st.builds(lambda ymd, h, mi, s, u: {"t": "datetime", "v": list(ymd) + [h, mi, s], "utc": u},
+                                        st.sampled_from([(1, 1, 1), (9999, 12, 31), (1, 1, 2), (9999, 12, 30)]), st.sampled_from([0, 12, 23]), st.sampled_from([0, 59]), st.sampled_from([0, 59]), st.booleans()))
     tms = st.builds(lambda h, mi, s, u: {"t": "time", "v": [h, mi, s], "utc": u}, st.integers(0, 23), st.integers(0, 59), st.integers(0, 59), st.booleans())
     per = st.one_of(
         st.builds(lambda y, mo, d, h, mi, s, u, dur: {"t": "period", "start": [y, mo, d, h, mi, s], "utc": u, "dur": dur},
